@@ -32,14 +32,16 @@ CODE VARIANT FLAGS (in `Cfg`): `bareBypass = true` is rich 9.10.0 as found, wher
 `startGuard = false` is the as-found `Progress.start` (repaired by fix 4e4f7e5), which pushes the hook, redirects io, hides the cursor
 and *then* calls `refresh()` unprotected; `resetShape = false` is the as-found `stop` (repaired by fix b4577f9), which keeps the
 recorded shape of the last frame (a later `start` then erases rows that belong to finished output) and
-leaves `vertical_overflow` at `"visible"`; `blankFix = false` is today's `restore_cursor`, which goes up
+leaves `vertical_overflow` at `"visible"`; `blankFix = false` is the as-found `restore_cursor` (repaired by fix bd10e80), which goes up
 `height` rows, so a transient display whose last frame is empty leaves one blank line behind;
-`flushFix = false` is today's `stop`, which does not flush the FileProxy objects before its last refresh:
+`flushFix = false` is the as-found `stop` (repaired by fix 4c3921f), which does not flush the FileProxy objects before its last refresh:
 text pending from `print(..., end="")` is only written when the proxy object dies in
-`_disable_redirect_io` — after the last frame, through the still installed hook.  /repo contains the three repairs: `bareBypass = false`, `startGuard = true`,
-`resetShape = true` (the values the harness passes).  `guardBase = false`: the guard of `Progress.start` is
-`except Exception:` (a KeyboardInterrupt / SystemExit / GeneratorExit from the renderable, `faultBase`, gets past it);
-`disableFix = false`: the `stop` of a `Progress(disable=True)` still writes its line feed.
+`_disable_redirect_io` — after the last frame, through the still installed hook.  `guardBase = false` is the guard
+`except Exception:` that fix 4e4f7e5 gave `Progress.start` (a KeyboardInterrupt / SystemExit / GeneratorExit from the
+renderable, `faultBase`, got past it; repaired by fix fc3f517: `except BaseException`);
+`disableFix = false` is the as-found `stop` of a `Progress(disable=True)`, which still wrote its line feed (repaired by fix 363ded9).
+/repo contains all seven repairs: `bareBypass = false` and the other six flags `true` (the values the harness passes;
+the defaults of the `Cfg` structure below are the as-found values).
 -/
 namespace RichModel.Live
 open RichModel
